@@ -68,6 +68,7 @@ Definition prop_ok (c : case) : bool :=
       | C07.CKeyed _ _ _ out => wf (strip_fb out)
       | C07.CGlobalSum _ _ out => wf (strip_fb out)
       | C07.CRich _ _ out => wf (strip_fb out)
+      | C07.CAggJob _ _ _ _ _ => true
       end && C07.prop_ok x
   | KCount x => wf (strip_fb (C12.c_out x)) && C12.prop_ok x
   | KEvent x => wf (strip_fb (C13.impl_out x)) && (C13.prop_ok x || negb (N.eqb (C13.known_class x) 0%N))
@@ -81,6 +82,7 @@ Definition prop_ok (c : case) : bool :=
       | C16.CReorder _ out => wf (strip_fb out)
       | C16.CSeq _ _ _ _ out => wf (strip_fb out)
       | C16.CJob _ _ _ _ _ => true      (* whole job: only the sink content is observed *)
+      | C16.CZoo _ input out => if wf (strip_fb input) then wf (strip_fb out) else true
       end && C16.prop_ok x
   | KFan x =>
       match x with
